@@ -335,17 +335,6 @@ where
         }
     }
 
-    fn client_disconnected(self: Pin<&mut Self>) {
-        let this = self.project();
-
-        this.flags
-            .insert(Flags::READ_DISCONNECT | Flags::WRITE_DISCONNECT);
-
-        if let Some(mut payload) = this.payload.take() {
-            payload.set_error(PayloadError::Incomplete(None));
-        }
-    }
-
     fn poll_flush(self: Pin<&mut Self>, cx: &mut Context<'_>) -> Poll<Result<(), io::Error>> {
         let InnerDispatcherProj { io, write_buf, .. } = self.project();
         let mut io = Pin::new(io.as_mut().unwrap());
@@ -979,9 +968,20 @@ where
                 Ok(None) => break,
 
                 Err(ParseError::Io(err)) => {
-                    trace!("I/O error: {}", &err);
-                    self.as_mut().client_disconnected();
-                    this = self.as_mut().project();
+                    // The codec does no I/O: this is malformed chunked framing in the payload of
+                    // a request that has already been handed to the service. Its body ends with
+                    // an error, earlier pipelined requests are still answered, nothing after it
+                    // is read and the connection is closed.
+                    trace!("malformed request payload: {}", &err);
+
+                    match this.payload.take() {
+                        Some(mut payload) => payload.set_error(PayloadError::EncodingCorrupted),
+                        None => this.messages.push_back(DispatcherMessage::Error(
+                            Response::bad_request().drop_body(),
+                        )),
+                    }
+
+                    this.flags.insert(Flags::READ_DISCONNECT);
                     *this.error = Some(DispatchError::Io(err));
                     break;
                 }
